@@ -380,6 +380,9 @@ func evalClassDeclareStmt(vm *r.VM, node *syntax.ClassDeclareStmt) error {
 	}
 	classRef.SetModule(module)
 
+	// (back on the line of the 定义 itself: the initial values of the properties have been
+	// evaluated on their own lines)
+	vm.SetCurrentLine(node.GetCurrentLine())
 	// add symbol to current scope first
 	if err := vm.DeclareConstElement(className, classRef); err != nil {
 		return err
